@@ -198,7 +198,13 @@ MsgPlans(M, raw, small) ==
 
 \* ------------------------------------------------------------------------
 \* prior contents of a target struct (C05): zero, and values with every unit set
-PriorVals(M, deep) == {M.zero} \cup MsgVals(M, FALSE, ~deep)
+\* plus, for every list field, a list LONGER than any list of the plans (three non-zero elements): a converter that
+\* keeps the storage of the target must still reset what null / unknown elements denote
+LongLists(M) ==
+  LET rich == RichOf(M, UnitsOf(M), M.zero)
+  IN UNION {{SetPath(g, M.fields[i].gopath, SeqV(<<TwoOf(M.fields[i], FALSE, TRUE)[1], TwoOf(M.fields[i], FALSE, TRUE)[1], TwoOf(M.fields[i], FALSE, TRUE)[1]>>)) : g \in {M.zero, rich}}
+            : i \in {j \in PlainIdx(M) : M.fields[j].kind \in {"primlist", "objlist"}}}
+PriorVals(M, deep) == {M.zero} \cup MsgVals(M, FALSE, ~deep) \cup LongLists(M)
 
 \* ------------------------------------------------------------------------
 \* malformed inputs (C06): every single corruption of a conforming object, at any depth
